@@ -152,6 +152,12 @@ def cases(ctx):
                         rays.append(list(rng.choice(rays)))
             if not rays:
                 continue
+            # direction vectors need not be unit vectors: any positive multiple is the same ray
+            # (powers of two keep the float64 components exact multiples)
+            if rng.random() < 0.35:
+                k = rng.choice([-30, -14, 9, 20, 30])
+                ctx.count("direction-length:2^%d" % k)
+                rays = [[r[0], [x * 2.0 ** k for x in r[1]]] for r in rays]
             yield {"kind": "rays", "mesh": name, "engine": eng, "rays": rays}
         elif kind == "contains":
             pts = [pt(0.6) for _ in range(rng.randint(4, 8))]
@@ -197,6 +203,15 @@ def run_case(c):
         o["single"] = sorted([int(a), int(b)] for a, b in zip(ir1, it1))
         o["first"] = [int(x) for x in E.intersects_first(O, D)]
         o["any"] = [bool(x) for x in E.intersects_any(O, D)]
+        # broad phase of the r-tree engine on the unit directions ray_triangle_id works with
+        from trimesh import util as tutil
+        from trimesh.ray import ray_triangle
+        Du = tutil.unitize(D)
+        tree = m.triangles_tree
+        o["dunit"] = Du.tolist()
+        o["rbounds"] = ray_triangle.ray_bounds(O, Du, tree.bounds).tolist()
+        cand, rid = ray_triangle.ray_triangle_candidates(O, Du, tree)
+        o["cands"] = [sorted(int(c_) for c_, r_ in zip(cand, rid) if r_ == j) for j in range(len(O))]
     elif k == "contains":
         E = engines(m)[c["engine"]](m)
         o["contains"] = [bool(x) for x in E.contains_points(np.array(c["points"], dtype=np.float64))]
@@ -207,6 +222,10 @@ def run_case(c):
         o["distance"] = [float(x) for x in dist]
         o["tid"] = [int(x) for x in tid]
         o["signed"] = [float(x) for x in m.nearest.signed_distance(P)]
+        from trimesh import proximity
+        from trimesh.constants import tol as ttol
+        o["nearby"] = [sorted(int(x) for x in c_) for c_ in proximity.nearby_faces(m, P)]
+        o["radius"] = [float(x) + ttol.merge for x in np.ravel(m.kdtree.query(P)[0])]
         vd, vi = m.nearest.vertex(P)
         o["vertex_distance"] = [float(x) for x in np.ravel(vd)]
         o["vertex_brute"] = [float(np.linalg.norm(m.vertices - p, axis=1).min()) for p in P]
@@ -243,11 +262,16 @@ def model_request(c, o):
     req = {"p": "C12", "op": "query", "tris": [[_qp(v) for v in t] for t in m.triangles.tolist()],
            "eps": _q(EPS), "eps_s": _q(EPS * o["scale"])}
     if c["kind"] == "rays":
-        req["rays"] = [[_qp(r[0]), _qp(r[1])] for r in c["rays"]]
+        # the margin from the origin is a distance: in ray-parameter units it is divided by |d|
+        req["rays"] = [[_qp(r[0]), _qp(r[1]), _q(EPS * o["scale"] / float(np.linalg.norm(r[1])))] for r in c["rays"]]
+        req["brays"] = [[_qp(r[0]), _qp(du)] for r, du in zip(c["rays"], o["dunit"])]
+        req["buf"] = _q(1e-5)
     else:
         req["rays"] = [[_qp(p), _qp(d)] for p in c["points"] for d in c["dirs"]]
         req["points"] = [_qp(p) for p in c["points"]]
         req["tids"] = o.get("tid", [])
+        if "radius" in o:
+            req["radii"] = [_q(x) for x in o["radius"]]
     return req
 
 
@@ -346,6 +370,31 @@ def model_oracle(c, o, m):
 
 
 def compare(c, o, m):
+    """model of the broad phase (ray_bounds, r-tree candidates, nearby_faces) against the code"""
+    sc = o["scale"]
+    if c["kind"] == "rays":
+        for j, (b, box) in enumerate(zip(m.get("broad", []), o["rbounds"])):
+            mb = [_f(x) for x in b["box"][0]] + [_f(x) for x in b["box"][1]]
+            if max(abs(x - y) for x, y in zip(mb, box)) > 1e-9 * max(1.0, sc, max(abs(v) for v in box)):
+                return "ray_bounds differs from the model for ray %d: %r vs %r" % (j, mb, box)
+            if b["pruned"] != b["hits"]:
+                return "model: pruning lost a hit for ray %d (contradicts C12_pruning_lossless)" % j
+            missing = set(b["hits"]) - set(o["cands"][j])
+            if missing:
+                return "triangles hit by ray %d are not among ray_triangle_candidates: %r" % (j, sorted(missing))
+            _st("broad_phase_rays_compared")
+    elif c["kind"] == "nearest":
+        for j, nb in enumerate(m.get("nearby", [])):
+            idx = m["points"][j].get("idx")
+            if idx is None:
+                continue
+            if idx not in nb:
+                return "model: nearbyFaces lost the minimising triangle for point %d" % j
+            # every triangle attaining the minimum distance is an equally good answer; the one the model picked
+            # must be among the code's candidates unless it lies within rounding of the cube's boundary
+            if idx not in o["nearby"][j] and abs(math.sqrt(_f(m["points"][j]["d2"])) - o["radius"][j]) > 1e-9 * sc:
+                return "minimising triangle %d of point %d is not among nearby_faces" % (idx, j)
+            _st("nearby_faces_points_compared")
     return None
 
 
